@@ -18,8 +18,11 @@
      - C07_six_frontends / C07_six_frontends_bare: all six front-ends deliver the same sentence records at the same lines;
      - C07_wrappers: the wrapper every delivered sentence carries (C18 at reader level), both loops;
      - C07_decode_agrees: decode( *parts ) in any order agrees with .decode() of the one sentence either reader delivers
-       for the message, wherever its lines arrive between other lines.
-   C07 = the conjunction (C07_statement). *)
+       for the message, wherever its lines arrive between other lines (arbitrary lines outside the message's slot);
+     - C07_decode_agrees_schedule: the same for every complete message of every line sequence that parses to a C03
+       well-formed schedule (slots reused: other messages of the same slot before and after);
+     - C07_decode_by_content: every delivery of every line sequence decodes by its own payload and bits.
+   C07 = the conjunction (C07_statement); C07_partial = its first four clauses (C07_implies_partial). *)
 From Coq Require Import ZArith List Bool Permutation.
 Require Import Prim.Exn Prim.Bits Prim.PyList Model.Sentence Model.AssembleIter Model.Assemble Spec.AssembleSpec
                Proofs.AssembleProofs.
